@@ -215,6 +215,26 @@ static void add_iter(hist_t *h, rng_t *r, const struct mtbl_source *src, int own
 static void step(hist_t *h, rng_t *r, int thorough)
 {
 	int op = rndn(r, 100);
+	if (rndn(r, 25) == 0) {
+		/* stand-alone codec calls, also on damaged input: a reported failure must not keep the output buffer (snappy, lz4, lz4hc, zstd; the zlib wrapper
+		   stops the process on a damaged stream, which is not a release question) */
+		static const mtbl_compression_type ALGS[] = {MTBL_COMPRESSION_SNAPPY, MTBL_COMPRESSION_LZ4, MTBL_COMPRESSION_LZ4HC, MTBL_COMPRESSION_ZSTD};
+		mtbl_compression_type alg = ALGS[rndn(r, 4)];
+		uint8_t in[3000]; size_t n = 1 + rndn(r, sizeof in - 1);
+		for (size_t i = 0; i < n; i++) in[i] = rndn(r, 4) ? (uint8_t)('a' + i % 5) : (uint8_t)rnd64(r);
+		uint8_t *cz = NULL, *back = NULL; size_t cn = 0, bn = 0;
+		if (mtbl_compress(alg, in, n, &cz, &cn) == mtbl_res_success) {
+			int damage = rndn(r, 4);
+			if (damage == 1 && cn > 1) cn = 1 + rndn(r, (uint32_t)cn - 1);                     /* truncated */
+			else if (damage == 2) for (int q = 0; q < 3; q++) cz[rndn(r, (uint32_t)cn)] ^= (uint8_t)(1u << rndn(r, 8));
+			else if (damage == 3) for (size_t i = 0; i < cn; i++) cz[i] = (uint8_t)rnd64(r);
+			mtbl_res res = mtbl_decompress(alg, cz, cn, &back, &bn);
+			statf(1, "ops.codec.decompress.%s.%s", damage ? "damaged" : "intact", res == mtbl_res_success ? "success" : "failure");
+			if (res == mtbl_res_success) free(back);
+			free(cz);
+		}
+		return;
+	}
 	if (op < 5) {                                               /* pool */
 		struct mtbl_threadpool *p = mtbl_threadpool_init(rndn(r, 5));
 		obj_new(h, T_POOL, p);
